@@ -406,7 +406,7 @@ fn content(d: &dyn Dialect, sql: &str, unescape: bool, trailing: bool) -> Value 
 /// characters that the literal printers mishandle -- quotes, backslash, dollar, brackets, control
 /// characters -- replaced by `_`), keeping kinds, delimiters and everything else.  Used to decide
 /// whether a failure is CAUSED by a literal of a known class: if the neutralised text passes, it is.
-fn neutralise(d: &dyn Dialect, sql: &str, unescape: bool) -> Option<String> {
+fn neutralise(d: &dyn Dialect, sql: &str, unescape: bool, collapse: bool) -> Option<String> {
     let toks = tokenize_loc(d, sql, unescape).ok()?;
     let offs = token_offsets(sql, &toks);
     let chars: Vec<char> = sql.chars().collect();
@@ -437,8 +437,13 @@ fn neutralise(d: &dyn Dialect, sql: &str, unescape: bool) -> Option<String> {
             out.push_str(&src);
             continue;
         }
-        let inner: String = cs[open_len..cs.len() - close_len].iter()
+        let mut inner: String = cs[open_len..cs.len() - close_len].iter()
             .map(|c| if matches!(c, '\'' | '"' | '`' | '\\' | '$' | '[' | ']') || c.is_control() { changed = true; '_' } else { *c }).collect();
+        if collapse {
+            // an escape sequence or a doubled quote is ONE payload character: where the grammar wants a one-character
+            // string (COPY .. QUOTE 'c') the neutral text must not be longer than the payload was
+            while inner.contains("__") { inner = inner.replace("__", "_"); }
+        }
         out.extend(cs[..open_len].iter());
         out.push_str(&inner);
         out.extend(cs[cs.len() - close_len..].iter());
@@ -447,12 +452,21 @@ fn neutralise(d: &dyn Dialect, sql: &str, unescape: bool) -> Option<String> {
 }
 
 fn neutral(d: &dyn Dialect, sql: &str, unescape: bool, trailing: bool) -> Value {
-    match neutralise(d, sql, unescape) {
+    match neutralise(d, sql, unescape, false) {
         None => json!({"status": "unchanged"}),
         Some(n) => {
-            let rt = roundtrip(d, &n, unescape, trailing);
+            let mut n = n;
+            let mut rt = roundtrip(d, &n, unescape, trailing);
+            if rt["status"] == "rejected" {
+                if let Some(n2) = neutralise(d, sql, unescape, true) {
+                    let rt2 = roundtrip(d, &n2, unescape, trailing);
+                    if rt2["status"] != "rejected" { n = n2; rt = rt2; }
+                }
+            }
             let ct = content(d, &n, unescape, trailing);
-            json!({"status": "neutralised", "sql": n, "roundtrip": rt["status"], "content": ct["status"]})
+            // a difference in keywords only (optional noise words such as AS) is not a difference in content tokens
+            let tokens_differ = ct["lost"].as_array().map(|a| !a.is_empty()).unwrap_or(false) || ct["invented"].as_array().map(|a| !a.is_empty()).unwrap_or(false);
+            json!({"status": "neutralised", "sql": n, "roundtrip": rt["status"], "content": ct["status"], "content_tokens_differ": tokens_differ})
         }
     }
 }
